@@ -23,6 +23,18 @@ template <class T> struct polygon_90_set_data {
     hasPos_ = true; pos_ = r;
   }
 };
+struct orientation_2d { int v_; constexpr explicit orientation_2d(int v) : v_(v) {} bool operator==(orientation_2d o) const { return v_ == o.v_; } };
+static constexpr orientation_2d HORIZONTAL(0); static constexpr orientation_2d VERTICAL(1);
+template <class T> void get_rectangles(std::vector<rectangle_data<T> >& out, const polygon_90_set_data<T>& s);
+// slicing orientation: VERTICAL is the default decomposition; HORIZONTAL is the same algorithm with the axes exchanged
+template <class T> void get_rectangles(std::vector<rectangle_data<T> >& out, const polygon_90_set_data<T>& s, orientation_2d o) {
+  if (o == VERTICAL) { get_rectangles(out, s); return; }
+  polygon_90_set_data<T> t; t.hasPos_ = s.hasPos_;
+  t.pos_ = rectangle_data<T>(s.pos_.yl_, s.pos_.xl_, s.pos_.yh_, s.pos_.xh_);
+  for (size_t k = 0; k < s.holes_.size(); ++k) t.holes_.push_back(rectangle_data<T>(s.holes_[k].yl_, s.holes_[k].xl_, s.holes_[k].yh_, s.holes_[k].xh_));
+  std::vector<rectangle_data<T> > tmp; get_rectangles(tmp, t);
+  for (size_t k = 0; k < tmp.size(); ++k) out.push_back(rectangle_data<T>(tmp[k].yl_, tmp[k].xl_, tmp[k].yh_, tmp[k].xh_));
+}
 template <class T> void get_rectangles(std::vector<rectangle_data<T> >& out, const polygon_90_set_data<T>& s) {
   if (!s.hasPos_) return;
   const rectangle_data<T> R = s.pos_;
